@@ -39,6 +39,7 @@ type Case struct {
 	Signer string   `json:"signer"`
 	Reader string   `json:"reader"`         // "read": bug.Read in the repository; "merge": identity+bug MergeAll on a second repository
 	Kind   string   `json:"kind,omitempty"` // "": commit with an operation; "join": two-parent commit with an empty pack, as merge() writes it
+	Init   string   `json:"init,omitempty"` // key the author's first identity version already declares
 	Late   bool     `json:"late,omitempty"` // the author's identity is created after bugs exist (its first version records the bug clocks)
 }
 
@@ -74,7 +75,7 @@ func (r *runner) Run(caseID string) Obs {
 	if err := os.MkdirAll(dir, 0o755); err != nil {
 		return Obs{Harness: err.Error()}
 	}
-	b, err := Build(dir, r.keys, c.H, c.Pos, c.Signer, c.Kind, c.Late)
+	b, err := Build(dir, r.keys, c.H, c.Pos, c.Signer, c.Kind, c.Late, c.Init)
 	if err != nil {
 		return Obs{Harness: "build: " + err.Error()}
 	}
@@ -397,6 +398,9 @@ func Worker(args []string) {
 // signerClass names the relation of the signer to the history at the tested commit.
 func signerClass(c Case) string {
 	set := []string{}
+	if c.Init != "" {
+		set = []string{c.Init}
+	}
 	sets := [][]string{set}
 	for _, ch := range c.H {
 		set, _ = applyChange(set, ch)
@@ -488,6 +492,9 @@ func situation(c Case, exp *Expected) string {
 	if c.Late {
 		s += " identity-created-after-bugs-exist"
 	}
+	if c.Init != "" {
+		s += " first-version-declares-" + c.Init
+	}
 	if exp != nil {
 		if exp.InForce > 0 {
 			s += " keys-in-force"
@@ -551,6 +558,17 @@ func Evaluate(c Case, res subproc.Result) (f *Finding, obs Obs, harness string) 
 		}
 		if obs.Verdict != want {
 			return &Finding{"verdict", fmt.Sprintf("raw-altered/%s/%s%s reader=%s (expected %s)", class, obs.Verdict, where, c.Reader, want), detail}, obs, ""
+		}
+		return nil, obs, ""
+	}
+	if strings.HasPrefix(c.Kind, "tree:") {
+		// the order in which a tree stores its entries carries no meaning: the verdict is the one
+		// of the canonically ordered tree (the reference reads the entries by name), or the history
+		// is refused as malformed; never accepted where the canonical order is refused
+		if obs.Verdict == "accepted" && want == "error" {
+			return &Finding{"verdict", fmt.Sprintf("raw-tree-order/%s/accepted (canonical order refused) %s", strings.TrimPrefix(c.Kind, "tree:"), situation(c, &exp)),
+				fmt.Sprintf("case %s: tree entries of the tested commit stored in the order %v; commit at logical time %d, versions created at %v, %d key(s) in force, signed=%v (by %s), valid under a key in force=%v; git-bug: %s",
+					c.ID(), TreeOrders[strings.TrimPrefix(c.Kind, "tree:")], exp.T, exp.Times, exp.InForce, exp.Signed, obs.SignedBy, exp.Valid, obs.Verdict)}, obs, ""
 		}
 		return nil, obs, ""
 	}
@@ -690,6 +708,58 @@ func Main(args []string) {
 			}
 		}
 	}
+	// raw tree alterations: the entries of the tested commit's tree stored in another order. The
+	// tested commit is never the root, so its tree has three entries (edit clock, ops, version):
+	// all five non-canonical permutations; histories from an empty key set and from a first
+	// version that already declares K1 (so that the keys at logical time 0 differ from the keys at
+	// the commit's time in both directions)
+	treeOrders := []string{"ops-first", "reverse", "version-first", "ops-first-version-second", "ops-last"}
+	for _, init := range []string{"", "K1"} {
+		var from []string
+		if init != "" {
+			from = []string{init}
+		}
+		maxTree := 2
+		if init != "" {
+			maxTree = 1
+		}
+		if tier == "thorough" {
+			maxTree = 3
+		}
+		for _, h := range HistoriesFrom(maxTree, from) {
+			if len(h) == 0 && init == "" {
+				continue
+			}
+			for _, pos := range Positions(len(h)) {
+				for i, order := range treeOrders {
+					for _, signer := range []string{"K1", "K2", "K3", "nobody"} {
+						for _, reader := range []string{"read", "merge"} {
+							if tier != "thorough" && (i >= 2 || (reader == "merge" && i >= 1) || (signer == "K2" && init == "")) {
+								continue // quick tier: ops-first through both readers, reverse through bug.Read
+							}
+							cases = append(cases, Case{H: h, Pos: pos, Signer: signer, Reader: reader, Kind: "tree:" + order, Init: init})
+						}
+					}
+				}
+			}
+		}
+	}
+	// the small hand-built families go first, so that the internal deadline on a busy machine
+	// never cuts them
+	prio := func(c Case) int {
+		switch {
+		case strings.HasPrefix(c.Kind, "tree:"):
+			return 0
+		case strings.HasPrefix(c.Signer, "raw:"):
+			return 1
+		case strings.HasPrefix(c.Reader, "session:"):
+			return 2
+		case c.Late:
+			return 3
+		}
+		return 4
+	}
+	sort.SliceStable(cases, func(a, b int) bool { return prio(cases[a]) < prio(cases[b]) })
 	budget := 170 * time.Second
 	if tier == "thorough" {
 		budget = 20 * time.Minute
@@ -708,7 +778,7 @@ func Main(args []string) {
 	rawVerdicts := map[string]int{}
 	outcomes := map[string]bool{}
 	var samples []any
-	executed, skipped, crashes, harnessErrs, unspecified, joinCases, rawCases, lateCases, sessionCases := 0, 0, 0, 0, 0, 0, 0, 0, 0
+	executed, skipped, crashes, harnessErrs, unspecified, joinCases, rawCases, lateCases, sessionCases, treeCases, treeRefused := 0, 0, 0, 0, 0, 0, 0, 0, 0, 0, 0
 	expAccept, expReject, boundary := 0, 0, 0
 	exhaustive := true
 	const batch = 2000
@@ -752,6 +822,12 @@ func Main(args []string) {
 			}
 			if strings.HasPrefix(c.Reader, "session:") {
 				sessionCases++
+			}
+			if strings.HasPrefix(c.Kind, "tree:") {
+				treeCases++
+				if !res.Crashed && obs.Verdict == "error" && obs.Expected.Accept && !(obs.Expected.InForce == 0 && obs.Expected.Signed) {
+					treeRefused++
+				}
 			}
 			if strings.HasPrefix(c.Signer, "raw:") {
 				rawCases++
@@ -837,34 +913,37 @@ func Main(args []string) {
 	known := rep.KnownSeen()
 	sort.Strings(known)
 	cov := map[string]any{
-		"evaluations":                       executed,
-		"distinct_nontrivial":               len(outcomes),
-		"rule":                              "a case is (identity history, position of the tested commit, kind of tested commit: with an operation / join commit with an empty pack, signer, reader) built with git-bug and read in a worker subprocess; distinct non-trivial = number of distinct (kind of tested commit, signer's relation to the history, keys in force or not, commit at a version's own logical time or not, reader, observed verdict) combinations",
-		"exhaustive":                        exhaustive && harnessErrs == 0,
-		"planned_cases":                     len(cases),
-		"histories":                         len(histories),
-		"max_changes":                       *maxLen,
-		"alphabet":                          Alphabet,
-		"signers":                           Signers,
-		"join_commit_signers":               JoinSigners,
-		"late_identity_cases":               lateCases,
-		"session_reader_cases":              sessionCases,
-		"raw_object_alterations":            RawAlterations,
-		"raw_object_cases":                  rawCases,
-		"raw_object_verdicts":               rawVerdicts,
-		"join_commit_cases":                 joinCases,
-		"not_applicable":                    skipped,
-		"observed_verdicts":                 verdicts,
-		"cases_per_signer":                  bySigner,
-		"reference_expects":                 map[string]int{"accept": expAccept, "reject_with_error": expReject, "statement_silent(signed although no key in force)": unspecified},
-		"commits_at_a_version_time":         boundary,
-		"crashed_cases":                     crashes,
-		"distinct_findings_including_known": len(found) - flakes,
-		"samples":                           samples,
+		"evaluations":          executed,
+		"distinct_nontrivial":  len(outcomes),
+		"rule":                 "a case is (identity history, position of the tested commit, kind of tested commit: with an operation / join commit with an empty pack, signer, reader) built with git-bug and read in a worker subprocess; distinct non-trivial = number of distinct (kind of tested commit, signer's relation to the history, keys in force or not, commit at a version's own logical time or not, reader, observed verdict) combinations",
+		"exhaustive":           exhaustive && harnessErrs == 0,
+		"planned_cases":        len(cases),
+		"histories":            len(histories),
+		"max_changes":          *maxLen,
+		"alphabet":             Alphabet,
+		"signers":              Signers,
+		"join_commit_signers":  JoinSigners,
+		"late_identity_cases":  lateCases,
+		"session_reader_cases": sessionCases,
+		"raw_tree_order_cases": treeCases,
+		"raw_tree_order_refused_where_canonical_accepted": treeRefused,
+		"raw_object_alterations":                          RawAlterations,
+		"raw_object_cases":                                rawCases,
+		"raw_object_verdicts":                             rawVerdicts,
+		"join_commit_cases":                               joinCases,
+		"not_applicable":                                  skipped,
+		"observed_verdicts":                               verdicts,
+		"cases_per_signer":                                bySigner,
+		"reference_expects":                               map[string]int{"accept": expAccept, "reject_with_error": expReject, "statement_silent(signed although no key in force)": unspecified},
+		"commits_at_a_version_time":                       boundary,
+		"crashed_cases":                                   crashes,
+		"distinct_findings_including_known":               len(found) - flakes,
+		"samples":                                         samples,
 	}
 	ev := evidence.Evidence{PropertyID: "C08", Tier: tier, Seed: seed, Level: "exploration", Coverage: cov,
 		Assumptions: []string{
 			"every case is built by git-bug itself (identity versions, bug commits, signatures through StoreSignedCommit; the signer is chosen by an identity.Interface wrapper overriding SigningKey only) and read by the real bug.Read / MergeAll in a worker subprocess; a dead worker is the observation 'crash'",
+			"raw tree alterations: the tree of the tested commit is written as a raw tree object with its entries in a non-canonical order (go-git's Tree.Encode refuses that) and the commit is signed after the tree was built; entry order carries no meaning, so the expected verdict is that of the canonical order (the reference reads entries by name); a refusal as malformed is tolerated, an acceptance where the canonical order is refused is a violation",
 			"third reader 'session': one cache.RepoCache on a victim replica pulls the early state (author resolved through the cache's resolvers), stays open and Fetch+MergeAll's the identity versions and the later commits in one pull, identity first, or commits first (then judged with the identity version the session knows); verdict = the merge report, which must agree with what the session's cache shows",
 			"readers resolve the author from git, so keys are public-only, as for every reader other than the author's own process",
 			"the identity versions are made through the real API (identity.NewIdentity / Identity.Mutate + Commit) in a repository whose bug clocks advance between the steps; the logical time of a version is the value of the bug edit clock read right before it is created, not what the version recorded (a difference is reported with the verdicts it changes)",
